@@ -569,6 +569,37 @@ Proof.
   intro a. apply Frame_mem. exact Hfr.
 Qed.
 
+(* ---- non-vacuity: a concrete state satisfying the hypotheses of the contract (LDA #imm with M = 1, X = 0 at $00:8000);
+   the contract then yields a successor state at $00:8002 with the widths unchanged *)
+Definition ex_regs (f : N) : Z :=
+  if N.eqb f f_PC then 32768 else if N.eqb f f_Interrupt then 1 else if N.eqb f f_M then 1 else 0.
+Definition ex_state : st := mkst ex_regs (fun a => if a =? 32768 then 169 else 7) [] (fun _ => false) false.
+
+Lemma fwidth_nonneg : forall f, 0 <= fwidth f.
+Proof.
+  intro f. unfold fwidth. destruct f as [|p]; [lia|].
+  do 7 (try (destruct p as [p|p|]; try lia)).
+Qed.
+
+Example ex_c_ok : c_ok ex_state.
+Proof.
+  exists 32768, 0, 1, 0. split; [right; reflexivity|]. split; [left; reflexivity|]. split; [|constructor].
+  intro f. unfold get, ex_state, regs.
+  repeat lazymatch goal with |- ovr ?h _ _ _ _ => split; [| destruct (N.eqb_spec f h) as [E|E]; [subst f; vm_compute; auto | exact I]] end.
+  unfold Bty. destruct (fwidth f =? 0) eqn:E0; [exact I|].
+  unfold ex_regs.
+  destruct (N.eqb_spec f f_PC) as [->|_]; [vm_compute; split; [discriminate | reflexivity]|].
+  destruct (N.eqb_spec f f_Interrupt) as [->|_]; [vm_compute; split; [discriminate | reflexivity]|].
+  destruct (N.eqb_spec f f_M) as [->|_]; [vm_compute; split; [discriminate | reflexivity]|].
+  unfold rng. split; [lia|]. apply pow2_pos. apply fwidth_nonneg.
+Qed.
+
+Example ex_step : exists s', c_step ex_state = Some s' /\\ c_pc s' = 32770 /\\ c_m s' = 1 /\\ c_x s' = 0.
+Proof.
+  destruct (c_contract ex_state 169 ex_c_ok eq_refl eq_refl) as [s' [H1 [_ [_ [H2 [H3 [H4 _]]]]]]].
+  exists s'. split; [exact H1|]. split; [exact H2|]. split; [exact H3 | exact H4].
+Qed.
+
 (* C07 for this interpreter: Props/CoupleProps.C07_couple with the abstract CPU instantiated.
    _partial: relative to the property's wording ("no TAKEN control transfer") conditional branches that are not
    taken at run time are not covered -- every branch / jump / call / return opcode is outside [straight] *)
